@@ -35,7 +35,12 @@ RULE = ("for a configuration (grid of 1-4 variations, rep_max below / at / "
         "the recorded history: restart completes, every variation has exactly "
         "rep_max distinct repetition ids = durable ids + newly executed ids "
         "(ids of the first and second run come from disjoint ranges).  "
-        "Parameter-guard histories restart with a changed fixed value / "
+        "Work that the log shows as durably saved must still be held by a file "
+        "at the crash (durable-work-kept).  Some configurations stop early "
+        "through _keep_going (the combination is complete below rep_max).  "
+        "Same-object histories raise KeyboardInterrupt / RuntimeError / "
+        "MemoryError inside repetition k and call simulate() again on the same "
+        "runner.  Parameter-guard histories restart with a changed fixed value / "
         "unpacked list / extra parameter / larger rep_max.  Small "
         "configurations are enumerated completely, large ones strided.  "
         "Signature = (crash-point kind, rep_max class, format, position "
@@ -73,8 +78,19 @@ class CrashRunner(SimulationRunner):
     def log(self, *a):
         os.write(self.log_fd, (" ".join(str(x) for x in a) + "\n").encode())
 
+    def _keep_going(self, current_params, current_sim_results, current_rep):
+        stop = getattr(self.conf, "stop_at", None)
+        return True if stop is None else current_rep < stop
+
     def _run_simulation(self, current_params):
         self.ncalls += 1
+        g = self.faults.get("raise")
+        if g and g[0] == self.ncalls and not self.faults.get("raised"):
+            self.faults["raised"] = True
+            self.ncalls -= 1
+            self.log("interrupt rep", self.ncalls + 1, g[1])
+            raise {"KeyboardInterrupt": KeyboardInterrupt, "RuntimeError": RuntimeError,
+                   "MemoryError": MemoryError}[g[1]]("injected")
         f = self.faults.get("rep")
         if f and f[0] == self.ncalls and f[1] == "before":
             self.log("crash rep", self.ncalls, "before")
@@ -154,6 +170,15 @@ def install_failpoints(state):
             os._exit(137)
         r = real_replace(src, dst, *a, **kw)
         os.write(state["log_fd"], ("replace %d %s\n" % (n, dst)).encode())
+        if "_unpack_" in os.path.basename(str(dst)):
+            # what has just become durable for that combination
+            try:
+                sr = SimulationResults.load_from_file(str(dst))
+                os.write(state["log_fd"], ("durable %d %d\n" % (
+                    max(sr.params.unpack_index, 0),
+                    len(sr["ids"][-1].get_result_accumulated_values()))).encode())
+            except Exception as e:          # noqa
+                os.write(state["log_fd"], ("durable-unreadable %s\n" % dst).encode())
         if fp and fp[0] == n and fp[1] == "after":
             os.write(state["log_fd"], ("crash replace %d after\n" % n).encode())
             os._exit(137)
@@ -191,9 +216,19 @@ def child_main(conf, wd, faults, uid_base, tag, override=None):
         r.set_results_filename(c.results_name)
         if c.partial_folder is not None:
             r.partial_results_folder = c.partial_folder
-        r.simulate()
+        interrupted = None
+        try:
+            r.simulate()
+        except (KeyboardInterrupt, RuntimeError, MemoryError) as e:
+            if not faults.get("raised"):
+                raise
+            # the user is still in the same session: look at what is on disk,
+            # then call simulate() again on the SAME runner object
+            interrupted = {"exc": type(e).__name__,
+                           "durable": {str(k): v for k, v in durable_state(wd, 0).items()}}
+            r.simulate()
         res = r.results
-        out = {"runned_reps": [int(x) for x in np.atleast_1d(r.runned_reps)],
+        out = {"interrupted": interrupted, "runned_reps": [int(x) for x in np.atleast_1d(r.runned_reps)],
                "ids": [[int(i) for i in x.get_result_accumulated_values()] for x in res["ids"]],
                "cnt": [int(x.get_result()) for x in res["cnt"]],
                "ncalls": r.ncalls, "nopen": state["nopen"], "nreplace": state["nreplace"],
@@ -300,6 +335,10 @@ def gen_conf(rng, big):
     c.clock_step = 0 if big else int(rng.choice([0, 0, 45, 120]))
     if c.clock_step and rng.random() < 0.5:
         c.rep_max = int(rng.choice([5, 8, 12]))
+    # an early-stop rule (the combination is complete after stop_at repetitions)
+    c.stop_at = None
+    if not big and rng.random() < 0.3:
+        c.stop_at = int(rng.integers(1, c.rep_max + 2))
     return c
 
 
@@ -307,7 +346,38 @@ def conf_tag(c):
     return {"unpacked": {k: np.asarray(v).tolist() for k, v in c.unpacked.items()},
             "rep_max": c.rep_max, "delete_partial": c.delete_partial,
             "results_name": c.results_name, "partial_folder": c.partial_folder,
-            "virtual_clock_step": getattr(c, "clock_step", 0)}
+            "virtual_clock_step": getattr(c, "clock_step", 0),
+            "stop_at": getattr(c, "stop_at", None)}
+
+
+def want_reps(c):
+    stop = getattr(c, "stop_at", None)
+    return c.rep_max if stop is None else max(1, min(c.rep_max, stop))
+
+
+def durable_ever(wd, tag):
+    """Largest number of repetitions that the log of a run shows as durably
+    saved, per combination."""
+    out = {}
+    for ln in read_text(os.path.join(wd, "log_%s.txt" % tag)).splitlines():
+        p = ln.split()
+        if p and p[0] == "durable":
+            out[int(p[1])] = max(out.get(int(p[1]), 0), int(p[2]))
+    return out
+
+
+def final_file_ids(wd):
+    for dp, _, fs in os.walk(wd):
+        for f in fs:
+            if "_unpack_" not in f and (f.endswith(".pickle") or f.endswith(".json")) and \
+                    not f.startswith("summary_"):
+                try:
+                    sr = SimulationResults.load_from_file(os.path.join(dp, f))
+                    return [[int(i) for i in x.get_result_accumulated_values()]
+                            for x in sr["ids"]]
+                except Exception:
+                    return None
+    return None
 
 
 def nvariations(c):
@@ -360,6 +430,17 @@ def decide(ctx, conf, wd, tag, kind, point, restarts=1):
     unread = [k for k in dur if isinstance(k, str)]
     if unread:
         ctx.tally("crash-left-unreadable-partial-file")
+    # work that the log shows as durably saved earlier is still held by
+    # something on disk (a partial file or a loadable final results file)
+    ever = durable_ever(wd, "first")
+    fin = final_file_ids(wd)
+    for v, n in ever.items():
+        D = dur.get(v, (0, []))
+        held = len(D[1]) if not isinstance(D, str) else 0
+        if fin is not None and v < len(fin):
+            held = max(held, len(fin[v]))
+        ctx.ev("durable-work-kept", held >= n, cls="saved-work-gone-at-crash",
+               detail=d(variation=v, saved_earlier=n, held_at_crash=held))
     status = run_child(conf, wd, {}, UID_RESTART, "second")
     err = read_text(os.path.join(wd, "err_second.txt"))
     ctx.ev("restart-completes", status == 0,
@@ -380,16 +461,17 @@ def decide(ctx, conf, wd, tag, kind, point, restarts=1):
         D = dur.get(v, (0, []))
         Dids = D[1] if not isinstance(D, str) else []
         N = new.get(v, [])
-        good = ids is not None and len(ids) == conf.rep_max and len(set(ids)) == len(ids) \
-            and ids == Dids + N and len(N) == conf.rep_max - len(Dids) \
-            and out["runned_reps"][v] == conf.rep_max and out["cnt"][v] == conf.rep_max
+        W = max(want_reps(conf), len(Dids))     # (a saved combination is never shortened)
+        good = ids is not None and len(ids) == W and len(set(ids)) == len(ids) \
+            and ids == Dids + N and len(N) == W - len(Dids) \
+            and out["runned_reps"][v] == W and out["cnt"][v] == W
         ok_all = ok_all and good
         if not good:
             lost = sorted(set(Dids) - set(ids or []))
             dup = len(ids or []) - len(set(ids or []))
             cls = "lost-durable-work" if lost else ("double-counted" if dup else
                                                     ("wrong-count" if ids is not None and
-                                                     len(ids) != conf.rep_max else "ids-mismatch"))
+                                                     len(ids) != W else "ids-mismatch"))
             ctx.ev("exactly-once", False, cls=cls,
                    detail=d(variation=v, final_ids=(ids or [])[:12], n_final=len(ids or []),
                             durable=Dids[:12], n_durable=len(Dids), new=N[:12], n_new=len(N),
@@ -428,8 +510,8 @@ def case_crash(ctx, rng, idx):
     dry = read_json(os.path.join(wd, "summary_dry.json"))
     nvar = nvariations(conf)
     ctx.ev("fault-free-run", st == 0 and dry is not None and
-           dry["runned_reps"] == [conf.rep_max] * nvar and
-           all(len(x) == conf.rep_max for x in dry["ids"]),
+           dry["runned_reps"] == [want_reps(conf)] * nvar and
+           all(len(x) == want_reps(conf) for x in dry["ids"]),
            detail={**tag, "status": st, "err": read_text(os.path.join(wd, "err_dry.txt"))[-600:]})
     shutil.rmtree(wd, ignore_errors=True)
     if st != 0 or dry is None:
@@ -470,7 +552,7 @@ def case_crash(ctx, rng, idx):
             st3 = run_child(conf, wd2, {}, UID_THIRD, "second")
             out = read_json(os.path.join(wd2, "summary_second.json"))
             good = st3 == 0 and out is not None and all(
-                len(x) == conf.rep_max and len(set(x)) == len(x) for x in out["ids"])
+                len(x) == want_reps(conf) and len(set(x)) == len(x) for x in out["ids"])
             if good:
                 for v in range(nvar):
                     D = dur.get(v, (0, []))
@@ -483,6 +565,61 @@ def case_crash(ctx, rng, idx):
         shutil.rmtree(wd, ignore_errors=True)
     ctx.sample("crash" + ("-big" if big else ""), {**tag, "crash_points": len(pts),
                                                    "calls": dry["ncalls"], "saves": dry["nopen"]})
+
+
+def case_sameobject(ctx, rng, idx):
+    """simulate() is interrupted by an exception raised inside a repetition
+    (Ctrl-C, an error in user code) and called again on the SAME runner."""
+    conf = gen_conf(rng, False)
+    tag = conf_tag(conf)
+    nvar = nvariations(conf)
+    W0 = want_reps(conf)
+    C = W0 * nvar
+    pts = list(range(1, C + 1)) if ctx.tier == "thorough" or C <= 6 else \
+        sorted(set([1, C] + [int(x) for x in rng.integers(1, C + 1, size=4)]))
+    for k in pts:
+        exc = ["KeyboardInterrupt", "RuntimeError", "MemoryError"][int(rng.integers(0, 3))]
+        wd = fresh_dir("c07_%d_same" % idx)
+        st = run_child(conf, wd, {"raise": (k, exc)}, 0, "first")
+        err = read_text(os.path.join(wd, "err_first.txt"))
+        d = lambda **e: (lambda: {**tag, "interrupted_at_call": k, "exception": exc, **e})
+        ctx.ev("restart-completes", st == 0, cls="same-object:" + (
+            err.strip().splitlines()[-1].split(":")[0] if err else str(st)),
+            detail=d(status=st, error=err[-800:]))
+        out = read_json(os.path.join(wd, "summary_first.json")) if st == 0 else None
+        if out is None or not out.get("interrupted"):
+            if st == 0:
+                ctx.tally("interrupt-not-reached")
+            shutil.rmtree(wd, ignore_errors=True)
+            continue
+        dur = out["interrupted"]["durable"]
+        before, after, seen = {}, {}, False
+        for ln in read_text(os.path.join(wd, "log_first.txt")).splitlines():
+            p = ln.split()
+            if p and p[0] == "interrupt":
+                seen = True
+            elif p and p[0] == "call":
+                (after if seen else before).setdefault(max(int(p[1]), 0), []).append(int(p[2]))
+        ctx.ev("exactly-once", len(out["ids"]) == nvar and len(out["runned_reps"]) == nvar,
+               cls="same-object:one-result-per-combination",
+               detail=d(n_results=len(out["ids"]), runned_reps=out["runned_reps"]))
+        for v in range(min(nvar, len(out["ids"]))):
+            ids = out["ids"][v]
+            D = dur.get(str(v), (0, []))
+            Dids = list(D[1]) if isinstance(D, (list, tuple)) else []
+            N = after.get(v, [])
+            W = max(W0, len(Dids))
+            good = len(ids) == W and len(set(ids)) == W and ids == Dids + N and \
+                out["runned_reps"][v] == W and out["cnt"][v] == W
+            ctx.ev("exactly-once", good, cls="same-object:ids",
+                   detail=d(variation=v, final_ids=ids[:12], n_final=len(ids), durable=Dids[:12],
+                            new=N[:12], runned_reps=out["runned_reps"]))
+        fin = final_file_ids(wd)
+        ctx.ev("final-file", fin == out["ids"], cls="same-object:missing-or-different",
+               detail=d())
+        ctx.sig("same-object", exc, W0, nvar, "first" if k == 1 else ("last" if k == C else "mid"),
+                bool(conf.clock_step), conf.stop_at is not None)
+        shutil.rmtree(wd, ignore_errors=True)
 
 
 def snapshot_files(wd):
@@ -500,6 +637,7 @@ def case_guard(ctx, rng, idx):
     conf = gen_conf(rng, False)
     conf.unpacked = {"snr": np.array([0.0, 5.0, 10.0])}
     conf.rep_max = int(rng.choice([2, 3, 5]))
+    conf.stop_at = None
     conf.delete_partial = False
     conf.results_name = ["res", "res.json"][idx % 2]      # no template: same file names
     tag = conf_tag(conf)
@@ -560,6 +698,8 @@ def classify(w):
 GENS = {
     "crash": Gen(case_crash, 11, 1500),
     "guard": Gen(case_guard, 24, 600),
+    "sameobject": Gen(case_sameobject, 12, 600),
 }
 MIN_EVALS = {"exactly-once": 300, "restart-completes": 150, "crash-injected": 150,
-             "fault-free-run": 10, "parameter-guard": 10, "final-file": 150}
+             "fault-free-run": 10, "parameter-guard": 10, "final-file": 150,
+             "durable-work-kept": 50}
